@@ -776,6 +776,17 @@ EXPORT errno_t _wcsnorm_reorder_s_chk(wchar_t *restrict dest, rsize_t dmax,
         if (cp > 0xffff) {
             p++;
         }
+#else
+        /* not a code point: must not be used as a table index */
+        if (unlikely(_UNICODE_MAX < cp)) {
+            handle_werror(orig_dest, orig_dmax,
+                          "wcsnorm_reorder_s: "
+                          "cp is too high",
+                          ESLEMAX);
+            if (seq_ext)
+                free(seq_ext);
+            return RCNEGATE(ESLEMAX);
+        }
 #endif
 
         cur_cc = _combin_class(cp);
@@ -966,6 +977,17 @@ EXPORT errno_t _wcsnorm_compose_s_chk(wchar_t *restrict dest, rsize_t dmax,
 #if SIZEOF_WCHAR_T == 2
         if (cp > 0xffff) {
             p++;
+        }
+#else
+        /* not a code point: must not be used as a table index */
+        if (unlikely(_UNICODE_MAX < cp)) {
+            handle_werror(orig_dest, orig_dmax,
+                          "wcsnorm_compose_s: "
+                          "cp is too high",
+                          ESLEMAX);
+            if (seq_ext)
+                free(seq_ext);
+            return RCNEGATE(ESLEMAX);
         }
 #endif
 
